@@ -3,6 +3,7 @@ package main
 import (
 	"encoding/json"
 	"fmt"
+	"reflect"
 	"strings"
 
 	stackage "github.com/JesseCoretta/go-stackage"
@@ -20,7 +21,7 @@ type nestInst struct {
 	tok  int
 }
 
-var nestClasses = []string{"prim", "nil", "stack", "alias", "ptr-alias", "cond", "cond(stack)", "aliasS", "ptr-stack", "nil-ptr-alias", "nil-ptr-stack"}
+var nestClasses = []string{"prim", "nil", "stack", "alias", "ptr-alias", "cond", "cond(stack)", "aliasS", "ptr-stack", "nil-ptr-alias", "nil-ptr-stack", "ptr3-alias"}
 
 func (in *nestInst) mk(class string) (v any, stackLike bool) {
 	in.tok++
@@ -42,6 +43,11 @@ func (in *nestInst) mk(class string) (v any, stackLike bool) {
 	case "ptr-stack":
 		a := stackage.Not().Push(t)
 		return &a, true
+	case "ptr3-alias": // three pointer levels above an alias: still a pointer to a Stack alias
+		a := StackAlias(stackage.Or().Push(t))
+		p1 := &a
+		p2 := &p1
+		return &p2, true
 	case "nil-ptr-alias": // a pointer that points at no Stack is not a Stack
 		return (*StackAlias)(nil), false
 	case "nil-ptr-stack":
@@ -57,6 +63,20 @@ func (in *nestInst) mk(class string) (v any, stackLike bool) {
 func isStackLike(v any) bool {
 	if v == nil || isNilPtr(v) {
 		return false
+	}
+	// any number of pointer levels above a Stack or one of the harness's alias types
+	rv := reflect.ValueOf(v)
+	for depth := 0; rv.Kind() == reflect.Ptr && depth < 8; depth++ {
+		if rv.IsNil() {
+			return false
+		}
+		rv = rv.Elem()
+	}
+	if rv.Kind() != reflect.Ptr && rv.CanInterface() && rv.Interface() != v {
+		switch rv.Interface().(type) {
+		case stackage.Stack, StackAlias, StackAliasS:
+			return true
+		}
 	}
 	switch v.(type) {
 	case stackage.Stack, StackAlias, StackAliasS, *StackAlias, *StackAliasS, *stackage.Stack:
@@ -111,6 +131,13 @@ func c13Machine(c *Ctx, kind string, maxL, maxBatch int, classes []string, cond 
 	return &Machine[*nestInst]{
 		Name: name,
 		New: func() *nestInst {
+			if cond && strings.HasPrefix(kind, "CONDITION-piecemeal") {
+				// assembled step by step, no expression yet
+				var pc stackage.Condition
+				pc.Init()
+				pc.SetKeyword("kw").SetOperator(stackage.Eq)
+				return &nestInst{isC: true, c: pc, m: []any{nil}}
+			}
 			if cond {
 				return &nestInst{isC: true, c: stackage.Cond("kw", stackage.Eq, "start"), m: []any{"start"}}
 			}
@@ -297,7 +324,7 @@ func c13Configs(c *Ctx) []c13Cfg {
 	}
 	out = append(out, c13Cfg{"OR+decorated", 2, 2, nestClasses, false})
 	out = append(out, c13Cfg{"LIST+cap2", 2, 3, []string{"prim", "stack", "ptr-alias", "cond"}, false}, c13Cfg{"NOT+cap2", 2, 3, []string{"prim", "alias", "nil"}, false})
-	out = append(out, c13Cfg{"CONDITION", 1, 1, nestClasses, true})
+	out = append(out, c13Cfg{"CONDITION", 1, 1, nestClasses, true}, c13Cfg{"CONDITION-piecemeal", 1, 1, nestClasses, true})
 	return out
 }
 
